@@ -430,7 +430,7 @@ def main(argv=None):
     try:
         vunits = [u for u in mine if u["engine"] == "verus"]
         kunits = [u for u in mine if u["engine"] != "verus"]
-        with cf.ThreadPoolExecutor(max_workers=8) as ex:
+        with cf.ProcessPoolExecutor(max_workers=8, mp_context=__import__("multiprocessing").get_context("fork")) as ex:  # processes, not threads: vx keeps per-build state in module globals
             futs = {ex.submit(run_verus_unit, u, scratch_root, args.tier): u for u in vunits}
             for u in kunits:
                 futs[ex.submit(run_kani_unit, u, scratch_root, args.tier)] = u
